@@ -37,9 +37,9 @@ import (
 // every spelling of the root among the names, both root kinds and the root
 // path spellings, Rename with the root as destination only (source: file,
 // nested file, non-empty directory, empty directory, missing names), as source
-// only (same partners as destination), on both sides (partner: a few fixed
-// spellings of the root and the name itself) and RemoveAll must each fail and
-// change nothing at, inside or outside the root.
+// only (same partners as destination), on both sides (partner: "/" in either
+// position, and the name itself) and RemoveAll must each fail and change
+// nothing at, inside or outside the root.
 
 var c45Frags = []string{"/", ".", "..", "a", "b", "//", "/../", "a/..", "..a", "a..", "...", "\x00",
 	"%2f", "%2e%2e", `\`, `..\`, " ", "a/./b"}
@@ -194,7 +194,6 @@ func (t c45Tree) rootGone() string {
 	return ""
 }
 
-
 // c45Snap lists everything under base (name, kind, size, link target; the
 // fixture gives every file a distinct size class so that overwriting shows),
 // split into the part inside root and the part outside of it (root itself
@@ -247,10 +246,10 @@ func TestVerif_C45(t *testing.T) {
 	vx.Run(t, "C45", func(c *vx.Ctx) {
 		kLex := vx.Pick(c, 4, 5)
 		kBeh := vx.Pick(c, 3, 4)
-		c.Rule(fmt.Sprintf("names = every distinct join of <= %d (lexical) / <= %d (behavioural) fragments of %q. lexical: Dir(root).resolve(name) for roots /abs/r, r, \"\", ., /, r/, r/../r — \"\" iff the name holds NUL, else the result is filepath.Clean and filepath.Rel(Clean(root), result) has no leading \"..\" element. behavioural: on a fresh real tree base/x1/../x%d/r (root path spelled plain and with a trailing slash, and for names of fewer fragments than the bound also as r/../r and with // and /./ inside) with a sentinel file a and directory b at every level outside r, the calls Rename(/b,name), Rename(name,/b), Mkdir, OpenFile(O_CREATE)+Write, RemoveAll are made in this order; after each the snapshot (paths, kinds, file sizes — all files have distinct sizes and sentinels are empty) of everything outside r must be unchanged and r must still be a directory; for names that the reference normalisation maps to the root, RemoveAll and Rename must fail and leave the inside of r unchanged; for names with NUL every call must fail and change nothing. non-trivial = name without NUL whose result was compared / whose calls were executed", kLex, kBeh, c45Frags, kBeh+2))
-		c.Assume("Linux: '/' is the only separator, so backslash spellings are ordinary file-name characters; symbolic links are out of scope (documented limitation of Dir)")
+		c.Rule(fmt.Sprintf("names = every distinct join of <= %d (lexical) / <= %d (behavioural) fragments of %q. lexical: Dir(root).resolve(name) for roots /abs/r, r, \"\", ., /, r/, r/../r — \"\" iff the name holds NUL, else the result is filepath.Clean and filepath.Rel(Clean(root), result) has no leading \"..\" element. behavioural (part fs): on a fresh real tree base/x1/../x%d/r with a sentinel file a and directory b at every level outside r, where r is (root kind) a directory, or a symbolic link to the directory base/real/t with the same sentinels in base/real; the served directory holds a/b, b, e/; the root path is spelled plain and with a trailing slash (linked root: plain), and for names of fewer fragments than the bound also as r/../r and with // and /./ inside (both root kinds); the calls Rename(/b,name), Rename(name,/b), Mkdir, OpenFile(O_CREATE)+Write, RemoveAll are made in this order; after each the snapshot (paths, kinds, file sizes, link targets — all files have distinct sizes and sentinels are empty) of everything outside the served directory (the link r included) must be unchanged and r must still be the directory / the same link to a directory; for names that the reference normalisation maps to the root, RemoveAll and Rename must fail and leave the inside unchanged; for names with NUL every call must fail and change nothing. operations on the root itself (part root-ops): for every behavioural name that the reference normalisation maps to the root x both root kinds x the same root path spellings, on one fresh tree: Rename(p, name) and Rename(name, p) for p in /b (file), /a/b (nested file), /a (non-empty directory), /e (empty directory), /c (missing), then Rename(name, /), Rename(/, name), Rename(name, name), RemoveAll(name); each must return an error and leave the root (directory or link), everything outside and everything inside unchanged. non-trivial = name without NUL whose result was compared / whose calls were executed", kLex, kBeh, c45Frags, kBeh+2))
+		c.Assume("Linux: '/' is the only separator, so backslash spellings are ordinary file-name characters; symbolic links inside the served tree are out of scope (documented limitation of Dir); the Dir's own root being a symbolic link to a directory is in scope (absolute link target only)")
 		c.Assume("the roots \"/\", \"\", \".\" and relative roots are examined lexically only (resolve); the file-system calls are made only below a fresh temporary directory")
-		c.Assume("Rename's refusal of the root is observable only through the returned error: the operating system refuses to rename a directory onto its own ancestor or descendant anyway")
+		c.Assume("refusal is judged as the property states it: the call fails and nothing changed; which error is returned is not judged. With a plain-directory root the operating system refuses to rename a directory onto its own ancestor or descendant anyway, so there only the error shows; with a linked root the rename/removal of the link itself would succeed and is seen as root-gone")
 
 		// ---- lexical
 		roots := []string{"/abs/r", "r", "", ".", "/", "r/", "r/../r"}
@@ -313,6 +312,91 @@ func TestVerif_C45(t *testing.T) {
 		behNames := c45Names(kBeh)
 		allStyles := len(c45Names(kBeh - 1)) // shorter names come first and get all five root spellings
 		c.Note("behavioural_names", len(behNames))
+		// ---- operations on the root itself (before the larger part fs, so that a deadline cuts that one)
+		var rootNames []string // every name of the behavioural set that denotes the root, shortest first
+		shortRoots := 0        // those of fewer fragments than the bound: all five root path spellings
+		for i, n := range behNames {
+			if segs, nul := c45Norm(n); !nul && len(segs) == 0 {
+				rootNames = append(rootNames, n)
+				if i < allStyles {
+					shortRoots++
+				}
+			}
+		}
+		c.Note("root_spellings", len(rootNames))
+		vx.Enumerate(c, "root-ops", vx.Opts{}, func(yield func(c45Beh) bool) {
+			for i, n := range rootNames {
+				for k := range c45Kinds {
+					for s := range c45Styles {
+						if i >= shortRoots && s >= 2 {
+							break
+						}
+						if !yield(c45Beh{Style: s, Name: n, Kind: k}) {
+							return
+						}
+					}
+				}
+			}
+		}, func(w *vx.W, x c45Beh) {
+			if segs, nul := c45Norm(x.Name); nul || len(segs) != 0 {
+				panic("c45 root-ops: case name does not denote the root")
+			}
+			tr := c45MkTree(filepath.Join(tmp, fmt.Sprint(vx.Hash64(x.Name)%64)), levels, x.Kind, x.Style)
+			defer os.RemoveAll(tr.base)
+			d := tr.d
+			how := c45Kinds[x.Kind] + " " + c45Styles[x.Style]
+			ctx := context.Background()
+			out0, in0 := c45Snap(tr.base, tr.inside)
+			// Every call names the root on at least one side, so on a tree
+			// that refuses all of them nothing ever changes and the calls
+			// can share one fixture; the first deviation ends the case.
+			try := func(op, partner, call string, err error) bool {
+				out1, in1 := c45Snap(tr.base, tr.inside)
+				if gone := tr.rootGone(); gone != "" {
+					w.Failf("C45/root/"+op+"/root-gone", "after Dir(%s).%s (partner: %s; err=%v) the root is gone: %s", how, call, partner, err, gone)
+					return false
+				}
+				if out1 != out0 {
+					w.Failf("C45/root/"+op+"/changed-outside-root", "Dir(%s).%s (partner: %s; err=%v) changed the tree outside the root:\nbefore:\n%s\nafter:\n%s", how, call, partner, err, out0, out1)
+					return false
+				}
+				if err == nil {
+					w.Failf("C45/root/"+op+"/not-refused", "Dir(%s).%s (partner: %s) operates on the root itself and returned nil", how, call, partner)
+					return false
+				}
+				if in1 != in0 {
+					w.Failf("C45/root/"+op+"/refused-but-changed", "Dir(%s).%s (partner: %s) operates on the root itself, failed (%v) but changed the contents of the root:\nbefore:\n%s\nafter:\n%s", how, call, partner, err, in0, in1)
+					return false
+				}
+				return true
+			}
+			partners := []struct{ name, what string }{
+				{"/b", "file"}, {"/a/b", "nested file"}, {"/a", "non-empty directory"}, {"/e", "empty directory"},
+				{"/c", "missing name"},
+			}
+			for _, p := range partners {
+				if !try("Rename-to", p.what, fmt.Sprintf("Rename(%q, %q)", p.name, x.Name), d.Rename(ctx, p.name, x.Name)) {
+					return
+				}
+			}
+			for _, p := range partners {
+				if !try("Rename-from", p.what, fmt.Sprintf("Rename(%q, %q)", x.Name, p.name), d.Rename(ctx, x.Name, p.name)) {
+					return
+				}
+			}
+			for _, pair := range [][2]string{{x.Name, "/"}, {"/", x.Name}, {x.Name, x.Name}} {
+				if !try("Rename-both", "root", fmt.Sprintf("Rename(%q, %q)", pair[0], pair[1]), d.Rename(ctx, pair[0], pair[1])) {
+					return
+				}
+			}
+			if !try("RemoveAll", "none", fmt.Sprintf("RemoveAll(%q)", x.Name), d.RemoveAll(ctx, x.Name)) {
+				return
+			}
+			w.Nontrivial()
+			w.Outcome("root-ops:" + c45Kinds[x.Kind] + ":all-refused")
+		})
+
+		// ---- every name, every method
 		vx.Enumerate(c, "fs", vx.Opts{}, func(yield func(c45Beh) bool) {
 			for i, n := range behNames {
 				for k := range c45Kinds {
@@ -400,93 +484,6 @@ func TestVerif_C45(t *testing.T) {
 				w.Nontrivial()
 				w.Outcome("fs:inside")
 			}
-		})
-
-		// ---- operations on the root itself
-		var rootNames []string // every name of the behavioural set that denotes the root, shortest first
-		shortRoots := 0        // those of fewer fragments than the bound: all five root path spellings
-		for i, n := range behNames {
-			if segs, nul := c45Norm(n); !nul && len(segs) == 0 {
-				rootNames = append(rootNames, n)
-				if i < allStyles {
-					shortRoots++
-				}
-			}
-		}
-		c.Note("root_spellings", len(rootNames))
-		vx.Enumerate(c, "root-ops", vx.Opts{}, func(yield func(c45Beh) bool) {
-			for i, n := range rootNames {
-				for k := range c45Kinds {
-					for s := range c45Styles {
-						if i >= shortRoots && s >= 2 {
-							break
-						}
-						if !yield(c45Beh{Style: s, Name: n, Kind: k}) {
-							return
-						}
-					}
-				}
-			}
-		}, func(w *vx.W, x c45Beh) {
-			if segs, nul := c45Norm(x.Name); nul || len(segs) != 0 {
-				panic("c45 root-ops: case name does not denote the root")
-			}
-			tr := c45MkTree(filepath.Join(tmp, fmt.Sprint(vx.Hash64(x.Name)%64)), levels, x.Kind, x.Style)
-			defer os.RemoveAll(tr.base)
-			d := tr.d
-			how := c45Kinds[x.Kind] + " " + c45Styles[x.Style]
-			ctx := context.Background()
-			out0, in0 := c45Snap(tr.base, tr.inside)
-			// Every call names the root on at least one side, so on a tree
-			// that refuses all of them nothing ever changes and the calls
-			// can share one fixture; the first deviation ends the case.
-			try := func(op, partner, call string, err error) bool {
-				out1, in1 := c45Snap(tr.base, tr.inside)
-				if gone := tr.rootGone(); gone != "" {
-					w.Failf("C45/root/"+op+"/root-gone", "after Dir(%s).%s (partner: %s; err=%v) the root is gone: %s", how, call, partner, err, gone)
-					return false
-				}
-				if out1 != out0 {
-					w.Failf("C45/root/"+op+"/changed-outside-root", "Dir(%s).%s (partner: %s; err=%v) changed the tree outside the root:\nbefore:\n%s\nafter:\n%s", how, call, partner, err, out0, out1)
-					return false
-				}
-				if err == nil {
-					w.Failf("C45/root/"+op+"/not-refused", "Dir(%s).%s (partner: %s) operates on the root itself and returned nil", how, call, partner)
-					return false
-				}
-				if in1 != in0 {
-					w.Failf("C45/root/"+op+"/refused-but-changed", "Dir(%s).%s (partner: %s) operates on the root itself, failed (%v) but changed the contents of the root:\nbefore:\n%s\nafter:\n%s", how, call, partner, err, in0, in1)
-					return false
-				}
-				return true
-			}
-			partners := []struct{ name, what string }{
-				{"/b", "file"}, {"/a/b", "nested file"}, {"/a", "non-empty directory"}, {"/e", "empty directory"},
-				{"/c", "missing name"}, {"/a/c", "missing nested name"}, {"/e/c", "missing name in an empty directory"},
-			}
-			for _, p := range partners {
-				if !try("Rename-to", p.what, fmt.Sprintf("Rename(%q, %q)", p.name, x.Name), d.Rename(ctx, p.name, x.Name)) {
-					return
-				}
-			}
-			for _, p := range partners {
-				if !try("Rename-from", p.what, fmt.Sprintf("Rename(%q, %q)", x.Name, p.name), d.Rename(ctx, x.Name, p.name)) {
-					return
-				}
-			}
-			for _, r := range []string{"/", "", "/.", "/a/..", x.Name} {
-				if !try("Rename-both", "root", fmt.Sprintf("Rename(%q, %q)", x.Name, r), d.Rename(ctx, x.Name, r)) {
-					return
-				}
-				if !try("Rename-both", "root", fmt.Sprintf("Rename(%q, %q)", r, x.Name), d.Rename(ctx, r, x.Name)) {
-					return
-				}
-			}
-			if !try("RemoveAll", "none", fmt.Sprintf("RemoveAll(%q)", x.Name), d.RemoveAll(ctx, x.Name)) {
-				return
-			}
-			w.Nontrivial()
-			w.Outcome("root-ops:" + c45Kinds[x.Kind] + ":all-refused")
 		})
 	})
 }
